@@ -268,4 +268,20 @@ CHECKS["C18"] = {
     "engine": "tlc+vh",
 }
 
+CHECKS["C20"] = {
+    "category": "exploration",
+    "text": "spec/Cfg.tla states that observations of the same (operation, input) in two feature configurations are identical unless one of the "
+            "four documented differences explains the configuration that lacks a feature, each anchored at the byte that triggers it: a no-alloc skip "
+            "stopped behind an indefinite array/map head nested in a definite one, a type error reported at a half-precision item without half, a type "
+            "error at an indefinite string in the bridge's self-describing path without alloc, collect_str without alloc. Six harness binaries "
+            "({none, alloc, std} x {half, no half}) are built by separate cargo invocations and run one deterministic corpus through the accessors, "
+            "typed decode / re-encode / length of every built-in instantiation, encoder call sequences, tokenizer, display and the bridge's typed, "
+            "self-describing, ignoring and serialising paths; the merged transcripts are validated by TLC pair by pair.",
+    "design_ref": "DESIGN.md section 6, C20",
+    "note": "Exploration-grade: a sampled corpus (about 85 000 operation-input pairs quick). Equality of two recorded observations is literal JSON "
+            "equality computed while merging; the judgement of every difference is the specification's. Not observed: error message texts.",
+    "technique": "TLA+ spec of the configuration-independence relation and its documented exceptions (Cfg) + trace validation of merged per-configuration transcripts of six separately built binaries",
+    "engine": "tlc+vh",
+}
+
 NOT_YET = "check not built yet in this round (planned in DESIGN.md section 10); not claimed until it exists"
